@@ -401,6 +401,10 @@ def gen_case(src):
         tb.labels.append("filter-predicate-entry-name")
         if ar is not None:
             tb.labels.append("entry-name-before-operator")
+            if glue(key, ar, ["2"], tb.bound) != "A":
+                # the entry name, the operator and the digit together spell a longer bound name (`c-2`): that name is the longest match
+                tb.labels.append("partial-glue")
+                tb.partial = True
         thr = values[n1[1]]
         fv = {None: lambda v: v, "-": lambda v: v - 2, "*": lambda v: v * 2, "+": lambda v: v + 2}[ar]
         hits = sum(1 for v in vals if {">": fv(v) > thr, "<": fv(v) < thr, ">=": fv(v) >= thr, "<=": fv(v) <= thr}[op])
